@@ -161,7 +161,7 @@ Fixpoint strip_conds_fuel (fuel : nat) (l : str) : option str :=
            | None => Some l
            | Some r => let (name, rest) := span is_cond_char r in
                        match name, rest with
-                       | _ :: _, 125 :: rest' => strip_conds_fuel f rest'
+                       | _ :: _, c :: rest' => if c =? 125 then strip_conds_fuel f rest' else Some l
                        | _, _ => Some l
                        end
            end
